@@ -182,6 +182,47 @@ Proof.
 Qed.
 Print Assumptions svg_bigraph_counts.
 
+(** The same counts read off the STRING: the number of positions at which a text element, a circle,
+    an edge path ([P_edge], the opening of svg_edge / svg_edge_directed) or a pie-chart wedge
+    ([P_wedge]) starts, in the whole document, names included (a name can never fake an element:
+    it is sanitised). Circles are the nodes drawn by svg_node; every other node is a pie chart
+    and contributes its wedges. *)
+Theorem svg_counts_on_string (width height : string) (display_edges directed : bool) (markers : list string)
+        (edges residual : list edge) (nodes : list node) (names : option (list label))
+        (font_size name_position : string) :
+  safe_field width = true -> safe_field height = true -> safe_field font_size = true ->
+  forallb safe_field markers = true -> forallb edge_safe edges = true -> forallb edge_safe residual = true ->
+  forallb node_safe nodes = true -> labels_safe names = true ->
+  let doc := visualize_graph width height display_edges directed markers edges residual nodes names
+                             font_size name_position in
+  count_starts P_text doc = n_labels names /\
+  count_starts P_circle doc = length (filter is_circle_node nodes) /\
+  count_starts P_edge doc = (if display_edges then length (filter (drawn directed) (edges ++ residual)) else 0) /\
+  count_starts P_wedge doc = total_wedges nodes.
+Proof.
+  exact (visualize_graph_string_counts svg_text_repl width height display_edges directed markers edges residual
+           nodes names font_size name_position svg_text_site_ok).
+Qed.
+Print Assumptions svg_counts_on_string.
+
+Theorem svg_bigraph_counts_on_string (width height : string) (display_edges : bool) (edges residual : list edge)
+        (nodes_row nodes_col : list node) (names_row names_col : option (list label)) (font_size : string) :
+  safe_field width = true -> safe_field height = true -> safe_field font_size = true ->
+  forallb edge_safe edges = true -> forallb edge_safe residual = true ->
+  forallb node_safe nodes_row = true -> forallb node_safe nodes_col = true ->
+  labels_safe names_row = true -> labels_safe names_col = true ->
+  let doc := visualize_bigraph width height display_edges edges residual nodes_row nodes_col names_row names_col
+                               font_size in
+  count_starts P_text doc = n_labels names_row + n_labels names_col /\
+  count_starts P_circle doc = length (filter is_circle_node (nodes_row ++ nodes_col)) /\
+  count_starts P_edge doc = (if display_edges then length edges + length residual else 0) /\
+  count_starts P_wedge doc = total_wedges nodes_row + total_wedges nodes_col.
+Proof.
+  exact (visualize_bigraph_string_counts svg_text_repl width height display_edges edges residual nodes_row nodes_col
+           names_row names_col font_size svg_text_site_ok).
+Qed.
+Print Assumptions svg_bigraph_counts_on_string.
+
 (** ** 5. Dendrograms *)
 
 (** For ANY pair of replacement lists: if the list of the site that is used is accepted, the
@@ -231,6 +272,21 @@ Proof.
 Qed.
 Print Assumptions svg_dendrogram_counts.
 
+Theorem svg_dendrogram_counts_on_string (rotate : bool) (width height : string) (names : option (list label))
+        (rotate_names : bool) (font_size line_width : string) (merges : list merge) :
+  safe_field width = true -> safe_field height = true -> safe_field font_size = true ->
+  safe_field line_width = true -> labels_safe names = true -> forallb merge_safe merges = true ->
+  let doc := visualize_dendrogram rotate width height names rotate_names font_size line_width merges in
+  count_starts P_text doc = n_labels names /\ count_starts P_circle doc = 0 /\
+  count_starts P_edge doc = 3 * length merges /\ count_starts P_wedge doc = 0.
+Proof.
+  exact (visualize_dendrogram_string_counts dendrogram_top_repl dendrogram_left_repl rotate width height names
+           rotate_names font_size line_width merges
+           (if rotate as b return (sanitiser_ok (if b then dendrogram_left_repl else dendrogram_top_repl) = true)
+            then proj1 (proj2 dendrogram_sites_ok) else proj1 dendrogram_sites_ok)).
+Qed.
+Print Assumptions svg_dendrogram_counts_on_string.
+
 (** The hypothesis of [svg_dendrogram_wf_if] is necessary: with the replacement list the two
     dendrogram label sites had before they were aligned with svg_text (ampersand only), a name
     containing a less-than sign yields a document that is not well-formed — every field safe. *)
@@ -257,5 +313,6 @@ Example c20_nonvacuous :
   forallb edge_safe [e1; e2] = true /\ forallb node_safe [n1; n2] = true /\ labels_safe names = true /\
   wf_check_root "svg" doc = true /\
   length (filter (drawn true) [e1; e2]) = 1 /\
+  (count_starts P_text doc, count_starts P_circle doc, count_starts P_edge doc, count_starts P_wedge doc) = (2, 1, 1, 2) /\
   sanitise svg_text_repl "a<b & ""c"" ]]>" = "a b   ""c"" ]] ".
 Proof. vm_compute. repeat split; reflexivity. Qed.
